@@ -27,8 +27,8 @@ REGISTRY = {
  'C05': dict(level='other', P=[], R=['rtc.battery_C05'],
              explanation='BOUNDED: transform of unseen data (finite numbers far outside / at the edges of the training range, unseen categories with and without default group, missing values '
                          'where none were seen, empty and single-row frames) either raises AssertionError or returns fitted labels only; no other exception type.'),
- 'C06': dict(level='other', P=[], R=['rtc.battery_C06'],
-             explanation='BOUNDED: to_json is json-serialisable; the reloaded object gives the same transform output or the same rejection on train / dev / shifted / unseen / float32 frames, '
+ 'C06': dict(level='other', P=[('contracts.serialization', None)], R=['rtc.battery_C06'],
+             explanation='PROVED: the value converters of serialization.py (single value and list overloads): strings unchanged, non-finite numbers become the marker, finite numbers keep their value, the result is json-serialisable, and decoding the encoded value gives the value back on the domain {strings other than the marker, finite numbers, +inf} (numpy classification predicates assumed). BOUNDED: to_json is json-serialisable; the reloaded object gives the same transform output or the same rejection on train / dev / shifted / unseen / float32 frames, '
                          'the same summary, and re-serialises to the same JSON.'),
  'C07': dict(level='other', P=[], R=['rtc.battery_C07'],
              explanation='BOUNDED: fit_transform == fit;transform, row-wise purity (subset, permutation, three re-indexings), repeatability, fitted state unchanged by transform, index/columns '
